@@ -548,8 +548,7 @@ class FnAnalysis:
         has a plain value type (integers, bools, unit never wrap a stream)"""
         if src is None:
             return frozenset()
-        t = ty.lstrip("&").replace("mut ", "").strip()
-        if is_int_ty(t) or t in ("bool", "()", "f64", "f32"):
+        if not is_streamlike_ty(ty):
             return frozenset()
         from hir import walk
         out = set()
@@ -1255,6 +1254,33 @@ class FnAnalysis:
             for src in self.havoc_src.get(a, ()):
                 work.extend(leaves(src))
         return seen
+
+
+_STREAM_WORDS = ("impl ", "dyn ", "Take<", "Cursor<", "BufReader<", "BufWriter<", "Encoder", "Decoder", "Compressor", "Decompressor", "TileManager<", "PMTiles<",
+                 "File", "Read", "Write")
+
+
+def is_streamlike_ty(ty):
+    """may a value of this type be (or own) a stream?  generic parameters, trait objects, readers/writers/codecs and the archive types that own the
+    backing reader are; plain data (integers, header/directory structs, byte vectors, tuples of those) is not"""
+    import re as _re
+    t = ty.strip()
+    while t.startswith("&"):
+        t = t[1:].strip()
+        if t.startswith("'"):
+            t = t.split(" ", 1)[1] if " " in t else t
+        if t.startswith("mut "):
+            t = t[4:].strip()
+    if is_int_ty(t) or t in ("bool", "()", "f64", "f32"):
+        return False
+    if any(w in t for w in _STREAM_WORDS):
+        return True
+    if _re.fullmatch(r"[A-Z][A-Za-z0-9]{0,2}", t):
+        return True
+    m = _re.match(r"core::option::Option<(.*)>$", t)
+    if m:
+        return is_streamlike_ty(m.group(1))
+    return False
 
 
 def _const_truth(v):
